@@ -214,6 +214,10 @@ def main():
         # ---- model + translator validation
         nval_models = validate_models(native, getattr(h, 'VALIDATE_MODELS', []), seed, log)
         nval = translator_validation(h, mir, native, seed, h.VALIDATION_CASES[tier], log)
+        # ---- premises discharged by another engine (C08: the Pipe protocol, MIRBMC)
+        premise = None
+        if hasattr(h, 'premises'):
+            premise = h.premises(tier, seed, mir, build.REPO, native, args.procs)
         # ---- known findings: confirm each witness natively; exclusion is active only while it reproduces
         known = load_known(pid)
         active = []
@@ -311,6 +315,12 @@ def main():
         for l in kf_lines:
             print(l)
         incon = list(tot['unsupported'])
+        if premise is not None:
+            incon += premise['incon']
+            for v in premise['violations']:
+                path = os.path.join(EVDIR, 'replays', '%s-%d.json' % (pid, len(reproduced)))
+                json.dump(v, open(path, 'w'), indent=1, default=str)
+                reproduced.append({'path': path, 'claim': v['claim'], 'inputs': v.get('config')})
         # vacuity guard: a run in which no path reaches the end of the harness (or no property assertion is
         # discharged) proves nothing; shapes without a completed path are reported in the evidence
         vacuous = [r['shape'] for r in results if r['ok_paths'] == 0 and not r['violations'] and not r['bounds']
@@ -357,6 +367,8 @@ def main():
                                               'note': 'every path of these shapes violates a harness precondition (assume)'},
             'non_reproducing_counterexamples': len(not_reproduced), 'log': log,
         }
+        if premise is not None:
+            cov['premises'] = premise['coverage']
         ev['coverage'] = cov
         ev['violations'] = len(reproduced)
         ev['assumptions'] = getattr(h, 'ASSUMPTIONS', [])
